@@ -245,12 +245,17 @@ def known_c01(case, missing, results=()):
     for r in results or ():
         late += ((r.get('monitors') or {}).get('ledger') or {}).get(
             'messages_after_task_left_pool') or []
+    explained, other = [], []
     for tid in missing:
         p, n = tid.split('/', 1)
         kind = classify_missing(case, n, int(p))
-        if kind == 'parentless-after-parented-point':
-            continue
-        if late and child_of_late(case['gt'], f'{tid}/01', late):
-            continue
-        return False
-    return True
+        if kind == 'parentless-after-parented-point' or (
+                late and child_of_late(case['gt'], f'{tid}/01', late)):
+            explained.append(int(p))
+        else:
+            other.append(int(p))
+    if not other:
+        return True
+    # an instance stuck for a known reason holds the runahead base: later
+    # points cannot run either
+    return bool(explained) and min(other) > min(explained)
